@@ -507,6 +507,10 @@ func (srv *Server) serveUDP(l net.PacketConn) error {
 	lUDP, isUDP := l.(*net.UDPConn)
 	readerPC, canPacketConn := reader.(PacketConnReader)
 	if !isUDP && !canPacketConn {
+		// Nothing was started: no serve loop runs and nobody will close srv.shutdown.
+		srv.lock.Lock()
+		srv.started = false
+		srv.lock.Unlock()
 		return &Error{err: "PacketConnReader was not implemented on Reader returned from DecorateReader but is required for net.PacketConn"}
 	}
 
